@@ -1,8 +1,9 @@
 import TcheranVerif.Proofs.AttackSpec
+import TcheranVerif.Proofs.Geo.A
 /-!
 # Rays, occupancy and what a move changes (geometry layer of C01)
 
-Finite facts about the 64 squares are decided by the kernel; everything that depends on the
+Finite facts about the 64 squares are decided by the kernel (`Proofs/Geo/*`); everything that depends on the
 occupancy is proved by induction over the ray lists.
 -/
 
@@ -11,17 +12,17 @@ open Board Geometry Rules
 
 /-! ### finite geometry -/
 
-theorem ray_nodup : ∀ d ∈ Dir.all, ∀ s : Sq, (ray d s).Nodup := by decide +kernel
-theorem self_not_mem_ray : ∀ d ∈ Dir.all, ∀ s : Sq, s ∉ ray d s := by decide +kernel
-theorem ray_disjoint : ∀ s : Sq, ∀ d1 ∈ Dir.all, ∀ d2 ∈ Dir.all, d1 ≠ d2 → ∀ x ∈ ray d1 s, x ∉ ray d2 s := by
-  decide +kernel
-theorem knight_offset_ne : ∀ t : Sq, ∀ d ∈ knightDeltas, offset t d.1 d.2 ≠ some t := by decide +kernel
-theorem king_offset_ne : ∀ t : Sq, ∀ d ∈ kingDeltas, offset t d.1 d.2 ≠ some t := by decide +kernel
+theorem ray_nodup : ∀ d ∈ Dir.all, ∀ s : Sq, (ray d s).Nodup := Geo.ray_nodup
+theorem self_not_mem_ray : ∀ d ∈ Dir.all, ∀ s : Sq, s ∉ ray d s := Geo.self_not_mem_ray
+theorem ray_disjoint : ∀ s : Sq, ∀ d1 ∈ Dir.all, ∀ d2 ∈ Dir.all, d1 ≠ d2 → ∀ x ∈ ray d1 s, x ∉ ray d2 s :=
+  Geo.ray_disjoint
+theorem knight_offset_ne : ∀ t : Sq, ∀ d ∈ knightDeltas, offset t d.1 d.2 ≠ some t := Geo.knight_offset_ne
+theorem king_offset_ne : ∀ t : Sq, ∀ d ∈ kingDeltas, offset t d.1 d.2 ≠ some t := Geo.king_offset_ne
 theorem pawn_offset_ne : ∀ t : Sq, ∀ p ∈ [Player.white, Player.black], ∀ df ∈ ([-1, 1] : List Int),
-    offset t df (-(fwd p)) ≠ some t := by decide +kernel
+    offset t df (-(fwd p)) ≠ some t := Geo.pawn_offset_ne
 
-theorem cardinal_sub : ∀ d ∈ Dir.cardinal, d ∈ Dir.all := by decide
-theorem diagonal_sub : ∀ d ∈ Dir.diagonal, d ∈ Dir.all := by decide
+theorem cardinal_sub : ∀ d ∈ Dir.cardinal, d ∈ Dir.all := Geo.cardinal_sub
+theorem diagonal_sub : ∀ d ∈ Dir.diagonal, d ∈ Dir.all := Geo.diagonal_sub
 
 /-! ### `seen` -/
 
